@@ -542,6 +542,8 @@ def extra_phase(ctx, tier, stats, sample_fn):
         raise HarnessBug("raw-record oracle found only %d declared (type, class) pairs" % ndecl)
     nb = 0
     for c in _boundary_cases():
+        if len(fails) >= MAX_REPORTED:
+            break
         res = run_case(ctx, c)
         stats.add(c, res, sample_fn)
         nb += 1
@@ -550,15 +552,17 @@ def extra_phase(ctx, tier, stats, sample_fn):
     extra = {"static_matrix_pairs": len(TYPES) * len(CLASSES), "static_matrix_types": len(TYPES),
              "static_matrix_classes": len(CLASSES), "static_matrix_entry_points": 8, "static_matrix_orders": ORDERS,
              "static_matrix_lookups": nlook, "static_matrix_declared_pairs": ndecl,
-             "static_matrix_exhaustive": not fails,
+             "static_matrix_exhaustive": not fails, "enumerated_failures": len(fails),
              "excluded_known_finding_terminal-in-throw-args": nexcl, "boundary_runtime_type_cases": nb}
-    return {"fails": fails, "extra": extra}
+    return {"fails": fails[:MAX_REPORTED], "extra": extra}
 
 
 # throw() packs its arguments into a Terminal-terminated tuple, so a dispatch failure whose message has to name the
 # Terminal object (cast(x, Terminal); any failing lookup on an object whose type is Terminal) raises FormatError
 # ("Not enough arguments to Format String!") from inside exception_throw instead of ValueError / ClassError.
 # Excluded by construction: Terminal is never a cast target, never the type of the object in a failing path.
+MAX_REPORTED = 5       # a broken dispatcher fails hundreds of enumerated cases; each report is re-run 3x by the core
+
 KNOWN = [{"key": "terminal-in-throw-args",
           "case": {"kind": "rt", "name": "K", "size": 8, "fdefs": [], "inst": [], "ops": [["cast", "s:Int", "Terminal"]]},
           "what": "cast(<Int object>, Terminal) raises FormatError instead of ValueError: throw()'s argument tuple is cut at the Terminal object"}]
